@@ -140,7 +140,9 @@ func Encode(spec FileSpec, opts EncodeOpts) ([]byte, error) {
 	return nil, fmt.Errorf("lds: unknown kind %q", spec.Kind)
 }
 
-func errMissing(kind string) error { return fmt.Errorf("lds: FileSpec of kind %s has no content", kind) }
+func errMissing(kind string) error {
+	return fmt.Errorf("lds: FileSpec of kind %s has no content", kind)
+}
 
 // ExpectedView is the view of the file computed from the spec alone (no bytes involved).
 func ExpectedView(spec FileSpec) (View, error) {
@@ -226,14 +228,16 @@ func ExpectedView(spec FileSpec) (View, error) {
 		var ps []any
 		for _, p := range spec.DG16.Persons {
 			pv := View{"dateRecorded": p.DateRecorded, "name": nameView(p.Name), "telephone": p.Telephone}
-			put(pv, "address", append([]string{}, p.Address...))
+			addr := append([]string{}, p.Address...)
+			if len(addr) == 0 {
+				addr = []string{""} // an empty value is one empty component
+			}
+			put(pv, "address", addr)
 			ps = append(ps, pv)
 		}
 		return View{"personsToNotify": ps}, nil
 	case "COM":
 		tl := make([]any, len(spec.COM.Tags))
-		tags := append([]int(nil), spec.COM.Tags...)
-		_ = tags
 		for i, t := range spec.COM.Tags {
 			tl[i] = t
 		}
